@@ -284,6 +284,13 @@ class FrameAnalysis:
         r = self._memo.get(t)
         if r is None:
             r = self._ftype(t)
+            if r[0] == "mixed" and self.seed(t) is None:
+                # a definite "not covariant" needs every ingredient to be understood: an operand of unknown type makes it unknown
+                for a in t.args:
+                    ta = self.ftype(a) if isinstance(a, sp.Basic) else INV
+                    if ta[0] == "unknown":
+                        r = ta
+                        break
             self._memo[t] = r
         return r
 
@@ -456,4 +463,4 @@ class FrameAnalysis:
                 return x
         if all(x in (INV, ZERO_T) for x in ts):
             return INV
-        return MIXED(f"unmodelled operator {f} applied to frame-dependent operands")
+        return ("unknown", f"unmodelled operator {f} applied to frame-dependent operands")
